@@ -113,6 +113,11 @@ def holds(test, F):
             if not is_and and r:
                 return True
         return is_and
+    if isinstance(test, ast.IfExp):
+        r = holds(test.test, F)
+        if r is None or r is RAISE:
+            return r
+        return holds(test.body if r else test.orelse, F)
     text = unparse(test)
     if text in F.raising:
         return RAISE
